@@ -72,9 +72,11 @@ pub fn stream(casefile: &str)
 			let decls = parse(&source, filename);
 			let shape = crate::shape::program(&decls);
 			let pre = expander::expand_one(filename, decls.clone());
+			let mut depths = "-".to_string();
 			let vshape = if resolver::check_surface_level_errors(&pre).is_ok()
 			{
 				let post = scoper::analyze(pre.clone());
+				depths = crate::shape::depths(&pre, &post);
 				crate::shape::vprogram(&pre, &post)
 			}
 			else
@@ -83,7 +85,7 @@ pub fn stream(casefile: &str)
 			};
 			let mut compiler = Compiler::default();
 			let outcome = run(decls, filename, &mut compiler);
-			format!("{}\t{}\t{}", describe(&outcome), shape, vshape)
+			format!("{}\t{}\t{}\t{}", describe(&outcome), shape, vshape, depths)
 		});
 		println!("{}\t{}", id, res);
 	}
